@@ -210,7 +210,10 @@ template<typename W> struct CmExec {
           if (src.log.size() >= 20000 || n.log.size() + src.log.size() >= 20000) break;
           n.sk->merge(*src.sk); for (auto& kv : src.log) { apply(*n.shadow, kv.first, kv.second); n.truth[kv.first] += kv.second; n.total += kv.second; n.log.push_back(kv); }
           cells = true; ctx.nontrivial = true; ctx.probe("merge"); break; }
-        case A_SERDE: { auto b = n.sk->serialize();
+        case A_SERDE: { const unsigned hdr = (s.c & 8) ? static_cast<unsigned>(1 + (s.c >> 4) % 40) : 0;   // caller-reserved header in front of the image (bytes path): the image proper starts behind it
+          auto b0 = n.sk->serialize(hdr); if (hdr) { ctx.require(b0.size() == n.sk->serialize().size() + hdr, fp("header-not-reserved").c_str(), std::to_string(b0.size())); ctx.probe("image_behind_header"); }
+          std::vector<uint8_t> b(b0.begin() + hdr, b0.end());
+          if (hdr) { auto plain = n.sk->serialize(); ctx.require(b.size() == plain.size() && std::equal(b.begin(), b.end(), plain.begin()), fp("image-behind-header-differs").c_str(), "header " + std::to_string(hdr)); }
           if (s.c & 2) n.sk.reset(new S(restore_stream(ctx, b, s.c, "C14", [&](std::istream& is) { return S::deserialize(is, seed, talloc<W>(1)); })));
           else n.sk.reset(new S(S::deserialize(b.data(), b.size(), seed, talloc<W>(1))));
           ctx.require(n.sk->get_seed() == seed, fp("restored-seed-differs").c_str(), std::to_string(n.sk->get_seed()) + " vs " + std::to_string(seed)); cells = true; ctx.fault("checkpoint_restore"); break; }
